@@ -341,6 +341,51 @@ def walk(ctx, phase):
                     ctx.fail("C14:sa_by_attribute.%s.%s.%s" % (setname, key, sk), "%s.%s.serviceaction.%s answers %r although not listed; T10 assigns %02Xh" % (setname, key, sk, val, sref),
                              {"table": setname, "name": key, "sa": sk})
 
+    # a copy of a table entry (copy.copy / copy.deepcopy, e.g. of a command holding it) is the same operation code
+    import copy as _copy
+
+    for setname in O.SETS:
+        enum = getattr(E, setname)
+        for key in enum.keys:
+            oc = getattr(enum, key)
+            for how, fn in (("copy", _copy.copy), ("deepcopy", _copy.deepcopy)):
+                try:
+                    dup = fn(oc)
+                except Exception as e:  # noqa: BLE001
+                    ctx.fail("C14:%s_of_opcode_raises.%s" % (how, type(e).__name__), "%s(%s.%s) raised %s" % (how, setname, key, e), {"table": setname, "name": key}, exc=e)
+                    continue
+                ctx.count("opcode_copies_checked")
+                sa1 = sorted((k, getattr(oc.serviceaction, k)) for k in oc.serviceaction.keys)
+                sa2 = sorted((k, getattr(dup.serviceaction, k)) for k in dup.serviceaction.keys)
+                if dup.value != oc.value or dup.name != oc.name or sa1 != sa2:
+                    ctx.fail("C14:%s_of_opcode_differs" % how, "%s(%s.%s) is %r/%02Xh with service actions %r; the entry is %r/%02Xh %r"
+                             % (how, setname, key, dup.name, dup.value, sa2[:3], oc.name, oc.value, sa1[:3]), {"table": setname, "name": key, "copy_value": dup.value, "value": oc.value})
+                elif O.group_length(oc.value) is not None and len(SCSICommand.init_cdb(dup)) != O.group_length(oc.value):
+                    ctx.fail("C14:cdblen.%s_of_opcode" % how, "init_cdb(%s(%s.%s)) gives %d bytes" % (how, setname, key, len(SCSICommand.init_cdb(dup))), {"table": setname, "name": key})
+
+    # reverse lookups (value -> name) on every enumeration, interleaved across tables: the name answered carries that value
+    for rnd in range(2):
+        for setname in (O.SETS if rnd == 0 else list(reversed(O.SETS))):
+            enum = getattr(E, setname)
+            for key in enum.keys:
+                oc = getattr(enum, key)
+                back = enum[oc]
+                ctx.count("reverse_lookups_checked")
+                if back == "" or getattr(enum, back, None) is None or getattr(enum, back).value != oc.value:
+                    ctx.fail("C14:reverse_lookup.%s" % setname, "%s[%s.%s] answers %r" % (setname, setname, key, back), {"table": setname, "name": key, "answer": back})
+                sa = oc.serviceaction
+                for sk in sa.keys:
+                    val = getattr(sa, sk)
+                    back = sa[val]
+                    ctx.count("reverse_lookups_checked")
+                    if back == "" or getattr(sa, back, None) != val:
+                        ctx.fail("C14:reverse_lookup.service_action", "%s.%s.serviceaction[%r] answers %r, which does not carry that value (asked for %s)" % (setname, key, val, back, sk),
+                                 {"table": setname, "name": key, "sa": sk, "answer": back})
+            for name in E.SCSI_STATUS.keys:
+                val = getattr(E.SCSI_STATUS, name)
+                if E.SCSI_STATUS[val] != name:
+                    ctx.fail("C14:status_reverse.%s" % name, "SCSI_STATUS[%02Xh] is %r after other enumerations were asked" % (val, E.SCSI_STATUS[val]), {"name": name})
+
     # names: OpCode.name vs key (observation only)
     for setname in O.SETS:
         enum = getattr(E, setname)
